@@ -208,7 +208,8 @@ const KINDS: &[(&str, &str)] = &[
     ("omerc", "A-boundary"), ("omerc", "B-boundary"), ("omerc", "laborde-boundary"),
     ("somerc", "north"), ("somerc", "south"), ("somerc", "equator"),
     ("tmerc", "wrap"), ("utm", "wrap"), ("btmerc", "wrap"), ("butm", "wrap"), ("lcc", "wrap"), ("laea", "wrap"), ("omerc", "wrap"), ("somerc", "wrap"),
-    ("gridshift", "datum"), ("gridshift", "geoid"), ("gridshift", "datum-list"),
+    ("gridshift", "datum"), ("gridshift", "geoid"), ("gridshift", "datum-list"), ("gridshift", "geoid-list"),
+    ("deformation", "dt-list"),
     ("deformation", "dt"), ("deformation", "t_epoch"), ("deformation", "dt+t_epoch"),
     // parameter pairs of which one takes precedence, given together
     ("merc", "lat_ts+k_0"), ("helmert", "mixed-spellings"), ("helmert", "static+epochs"),
@@ -317,6 +318,27 @@ fn lon_0(c: &mut Cur, def: &mut String, wrap: bool) -> f64 {
     }
 }
 
+/// a coarse (2 degree) grid with its own, different values around the detail grid `g1`,
+/// reaching at least 2 degrees beyond it on every side
+fn coarse_around(c: &mut Cur, g1: &GridSpec, name: &str, bands: usize, base_max: f64, var_max: f64) -> GridSpec {
+    let mut g2 = grid_spec(c, name, bands, base_max, var_max, true);
+    g2.lat_s = F((g1.lat_s.0 - 2.0).floor());
+    g2.lon_w = F((g1.lon_w.0 - 2.0).floor());
+    g2.rows = (((89.0 - g2.lat_s.0) / 2.0).floor() as u32 + 1).min(9);
+    g2.cols = 9;
+    g2
+}
+
+/// operand sets for a list of overlapping grids: tuples inside the detail grid (served by it)
+/// and tuples 0.1 .. 1.5 degrees outside it (served by the coarse grid), in mixed order
+fn mixed_coverage(g1: &GridSpec, p: &[f64; 5]) -> (f64, f64) {
+    if p[4] < 0.5 {
+        g1.interior(p)
+    } else {
+        g1.ring(p)
+    }
+}
+
 fn grid_spec(c: &mut Cur, name: &str, bands: usize, base_max: f64, var_max: f64, coarse: bool) -> GridSpec {
     let steps = [0.1, 0.25, 0.5, 1.0];
     let (dlat, dlon) = if coarse { (2.0, 2.0) } else { (steps[c.pick(4)], steps[c.pick(4)]) };
@@ -367,6 +389,18 @@ impl GridSpec {
         let lat = self.lat_s.0 + (self.lat_n() - self.lat_s.0) * lin(p[1], 0.1, 0.9);
         let lon = self.lon_w.0 + (self.lon_e() - self.lon_w.0) * lin(p[0], 0.1, 0.9);
         (lon, lat)
+    }
+    /// a point (degrees) 0.1 .. 1.5 degrees outside the coverage, on any of the four sides
+    fn ring(&self, p: &[f64; 5]) -> (f64, f64) {
+        let off = 0.1 + 1.4 * (p[4] * 997.0).fract();
+        let lon_along = self.lon_w.0 - 1.0 + (self.lon_e() - self.lon_w.0 + 2.0) * p[0];
+        let lat_along = self.lat_s.0 - 1.0 + (self.lat_n() - self.lat_s.0 + 2.0) * p[1];
+        match (p[4] * 64.0) as usize % 4 {
+            0 => (lon_along, self.lat_n() + off),
+            1 => (lon_along, self.lat_s.0 - off),
+            2 => (self.lon_e() + off, lat_along),
+            _ => (self.lon_w.0 - off, lat_along),
+        }
     }
     /// (largest |value|, largest difference between adjacent nodes) over all bands
     fn extremes(&self) -> (f64, f64) {
@@ -1024,29 +1058,29 @@ fn build_projection(raw: &Raw, op: &str, aspect: &str, mut c: Cur, mut ell: Stri
             pts = raw.pts.iter().map(|p| { let (lon, lat) = disc(p, l0, lat0, 8.0); geo2(lon, lat, p) }).collect();
         }
         "gridshift" => {
-            match aspect {
-                "geoid" => grids.push(grid_spec(&mut c, "g1", 1, 50.0, 5.0, false)),
-                _ => grids.push(grid_spec(&mut c, "g1", 2, 10.0, 2.0, false)),
+            let list = aspect.ends_with("-list");
+            let geoid = aspect.starts_with("geoid");
+            if geoid {
+                grids.push(grid_spec(&mut c, "g1", 1, 50.0, 5.0, false));
+            } else {
+                grids.push(grid_spec(&mut c, "g1", 2, 10.0, 2.0, false));
             }
-            def = match aspect {
-                "datum-list" => {
-                    // an optional missing grid first, a coarse fall-back grid around g1 last
-                    let mut g2 = grid_spec(&mut c, "g2", 2, 10.0, 2.0, true);
-                    g2.lat_s = F((grids[0].lat_s.0 - 2.0).floor());
-                    g2.lon_w = F((grids[0].lon_w.0 - 2.0).floor());
-                    g2.rows = 9;
-                    g2.cols = 9;
-                    grids.push(g2);
-                    "gridshift grids=@missing,g1,g2".to_string()
-                }
-                _ => "gridshift grids=g1".to_string(),
+            def = if list {
+                // an optional missing grid first, then the detail grid, then a coarse grid around it
+                // whose corrections differ: every tuple must be served by the same grid in both
+                // directions, whatever tuples come before it in the operand set
+                let g2 = if geoid { coarse_around(&mut c, &grids[0], "g2", 1, 50.0, 5.0) } else { coarse_around(&mut c, &grids[0], "g2", 2, 10.0, 2.0) };
+                grids.push(g2);
+                "gridshift grids=@missing,g1,g2".to_string()
+            } else {
+                "gridshift grids=g1".to_string()
             };
             let g = grids[0].clone();
             pts = raw
                 .pts
                 .iter()
                 .map(|p| {
-                    let (lon, lat) = g.interior(p);
+                    let (lon, lat) = if list { mixed_coverage(&g, p) } else { g.interior(p) };
                     p4(lon.to_radians(), lat.to_radians(), rd(lin(p[2], -100.0, 3000.0), 3), zt(p).1)
                 })
                 .collect();
@@ -1054,8 +1088,14 @@ fn build_projection(raw: &Raw, op: &str, aspect: &str, mut c: Cur, mut ell: Stri
         "deformation" => {
             grids.push(grid_spec(&mut c, "v1", 3, 30.0, 4.0, false));
             def = "deformation grids=v1".to_string();
+            let list = aspect == "dt-list";
+            if list {
+                let v2 = coarse_around(&mut c, &grids[0], "v2", 3, 30.0, 4.0);
+                grids.push(v2);
+                def = "deformation grids=v1,v2".to_string();
+            }
             let dt;
-            if aspect == "dt" {
+            if aspect == "dt" || list {
                 dt = rd(c.lin(-30.0, 30.0), 2);
                 def.push_str(&format!(" dt={dt}"));
             } else if aspect == "dt+t_epoch" {
@@ -1081,7 +1121,7 @@ fn build_projection(raw: &Raw, op: &str, aspect: &str, mut c: Cur, mut ell: Stri
                 .pts
                 .iter()
                 .map(|p| {
-                    let (lon, lat) = g.interior(p);
+                    let (lon, lat) = if list { mixed_coverage(&g, p) } else { g.interior(p) };
                     let xyz = el.cartesian(lon.to_radians(), lat.to_radians(), lin(p[2], -100.0, 3000.0) * a / EARTH_A);
                     p4(xyz[0], xyz[1], xyz[2], rd(lin(p[3], 1985.0, 2035.0), 2))
                 })
@@ -1108,6 +1148,8 @@ const FILE_GRIDS: &[(&str, &str, &str, f64, f64, f64, f64)] = &[
     ("gridshift", "gsb/5458.gsb", "", 54.0, 58.0, 8.0, 16.0),
     ("gridshift", "gsb/5458_with_subgrid.gsb", "", 54.0, 58.0, 8.0, 16.0),
     ("gridshift", "gsb/100800401.gsb", "", 40.0, 43.0, 0.0, 3.5),
+    // detail grid (55.5..57.5 N, 11..13 E) listed ahead of the grid around it, corrections differ
+    ("gridshift", "datum/test_subset.datum", ", test.datum", 54.0, 58.0, 8.0, 16.0),
     ("deformation", "deformation/test.deformation", " dt=25", 54.0, 58.0, 8.0, 16.0),
     ("deformation", "deformation/eur_nkg_nkgrf17vel.deformation", " t_epoch=2000", 49.0, 75.0, 0.0, 50.0),
     ("deformation", "deformation/test.deformation", " dt=25 t_epoch=2010", 54.0, 58.0, 8.0, 16.0),
@@ -1140,6 +1182,20 @@ fn build_file_case(raw: &Raw) -> Case {
                     }
                 }
             }
+            if name == "test_subset.datum" {
+                // the two grids differ: stay 0.1 degree away from the border of the detail grid,
+                // where the combined shift jumps and is not invertible
+                for edge in [55.5, 57.5] {
+                    if (lat - edge).abs() < 0.1 {
+                        lat += 0.25;
+                    }
+                }
+                for edge in [11.0, 13.0] {
+                    if (lon - edge).abs() < 0.1 {
+                        lon += 0.25;
+                    }
+                }
+            }
             let (lat, lon) = (lat.to_radians(), lon.to_radians());
             let h = rd(lin(p[2], -100.0, 3000.0), 3);
             if op == "deformation" {
@@ -1152,7 +1208,13 @@ fn build_file_case(raw: &Raw) -> Case {
         .collect();
     Case {
         op: format!("{op}-file"),
-        aspect: if tail.contains("dt=") && tail.contains("t_epoch=") { format!("{name}+dt+t_epoch") } else { name.to_string() },
+        aspect: if tail.contains("dt=") && tail.contains("t_epoch=") {
+            format!("{name}+dt+t_epoch")
+        } else if let Some(second) = tail.strip_prefix(", ") {
+            format!("{name}+{second}")
+        } else {
+            name.to_string()
+        },
         def: format!("{op} grids={name}{tail}"),
         macros: vec![],
         ell: "GRS80".into(),
@@ -1191,7 +1253,7 @@ fn touched(op: &str, aspect: &str) -> [bool; 4] {
     match op {
         "helmert" | "cart" | "molodensky" | "deformation" | "pipeline:geo" | "pipeline:gis" | "pipeline:rad" => [true, true, true, false],
         "permtide" => [false, false, true, false],
-        "gridshift" if aspect == "geoid" => [false, false, true, false],
+        "gridshift" if aspect.starts_with("geoid") => [false, false, true, false],
         "gridshift-file" if aspect == "test.geoid" => [false, false, true, false],
         "deformation-file" => [true, true, true, false],
         "geodesic" | "noop" | "addone" | "axisswap" | "adapt" | "unitconvert" => [true; 4],
@@ -1392,7 +1454,7 @@ fn tol_m(case: &Case, el: &El, x: &Coor4D) -> f64 {
         // shipped velocity models: cm/year, varying by mm/year over hundreds of km; |dt| <= 35 years
         "deformation-file" => 1.0e-5,
         "deformation" => {
-            let (vmax, lip) = grid_lipschitz(&case.grids[0], el);
+            let (vmax, lip) = case.grids.iter().map(|g| grid_lipschitz(g, el)).fold((0.0f64, 0.0f64), |m, v| (m.0.max(v.0), m.1.max(v.1)));
             // values are mm/year in the file
             let dt = case.q[0].0;
             2.0 * dt * dt * (vmax / 1000.0) * (lip / 1000.0) * 3.0 + 1.0e-6
@@ -1582,20 +1644,28 @@ fn jacobian_ground<C: Context>(ctx: &C, op: OpHandle, def: &str, insp: Sp, el: &
 fn check(case: &Case, rec: &mut Rec) -> CaseResult {
     if case.op.ends_with("-file") {
         // a grid file shipped with the library, served from memory by the harness context
-        let gridname = case.aspect.split('+').next().unwrap_or("");
-        let entry = FILE_GRIDS.iter().find(|e| e.1.ends_with(gridname));
-        let Some(entry) = entry else { vfail!("harness-unknown-grid-file", "no shipped grid called {}", case.aspect) };
         let root = std::env::var("VERIF_REPO_DIR").unwrap_or_else(|_| "/repo".into());
-        let path = format!("{root}/geodesy/{}", entry.1);
-        let bytes = match std::fs::read(&path) {
-            Ok(b) => b,
-            Err(e) => vfail!("harness-grid-file-unreadable", "cannot read {path}: {e}"),
-        };
         let mut ctx = GridCtx::new();
-        match vcore::guard::guard(|| ctx.add_grid_bytes(gridname, &bytes)) {
-            Ok(Ok(())) => {}
-            Ok(Err(e)) => vfail!(format!("shipped-grid-rejected:{}", case.aspect), "shipped grid {path} rejected by the decoder: {e:?}"),
-            Err(p) => vfail!(format!("panic-grid-decode@{}", p.sig()), "decoding shipped grid {path} panics: {} at {}:{}", p.msg, p.file, p.line),
+        let mut loaded = std::collections::BTreeSet::new();
+        for entry in FILE_GRIDS {
+            let name = entry.1.rsplit('/').next().unwrap_or("");
+            let named = case.def.split(|ch: char| ch == '=' || ch == ',' || ch.is_whitespace()).any(|tok| tok == name);
+            if !named || !loaded.insert(name) {
+                continue;
+            }
+            let path = format!("{root}/geodesy/{}", entry.1);
+            let bytes = match std::fs::read(&path) {
+                Ok(b) => b,
+                Err(e) => vfail!("harness-grid-file-unreadable", "cannot read {path}: {e}"),
+            };
+            match vcore::guard::guard(|| ctx.add_grid_bytes(name, &bytes)) {
+                Ok(Ok(())) => {}
+                Ok(Err(e)) => vfail!(format!("shipped-grid-rejected:{name}"), "shipped grid {path} rejected by the decoder: {e:?}"),
+                Err(p) => vfail!(format!("panic-grid-decode@{}", p.sig()), "decoding shipped grid {path} panics: {} at {}:{}", p.msg, p.file, p.line),
+            }
+        }
+        if loaded.is_empty() {
+            vfail!("harness-unknown-grid-file", "no shipped grid named in '{}'", case.def);
         }
         return check_with(&mut ctx, case, rec);
     }
@@ -1909,7 +1979,7 @@ fn main() {
 
     // (quick counts: the engine multiplies them by 3)
     // 1. every catalogue entry x every ellipsoid (47 built-in + one random), deterministic draws
-    let reps = run.scale(4, 96);
+    let reps = run.scale(3, 96);
     let npts = if run.is_thorough() { 256 } else { 64 };
     let nk = KINDS.len();
     let seed = run.seed;
@@ -1926,7 +1996,7 @@ fn main() {
     );
 
     // 2. random operator instances
-    let n = run.scale(40_000, 2_800_000);
+    let n = run.scale(25_000, 2_800_000);
     let maxpts = if run.is_thorough() { 256 } else { 128 };
     run.section(
         "operators-random",
@@ -1948,7 +2018,7 @@ fn main() {
     );
 
     // 3. typed pipelines and macros
-    let n = run.scale(15_000, 1_200_000);
+    let n = run.scale(8_000, 1_200_000);
     run.section(
         "pipelines",
         "type-correct pipelines (external lat/lon degrees | lon/lat degrees | radians -> 0..2 datum shifts cart|helmert|cart inv -> optional projection utm/tmerc/merc/webmerc/lcc/laea/omerc/btmerc -> output adaptors), plain or wrapped in sub-chain / whole / nested / parameterised macros; points within 2 degrees of a random centre; tolerance = sum of the step tolerances; macro invocations also get the inv twin check",
